@@ -177,10 +177,13 @@ SL = "theories/Properties/SourceLevel.v"
 # theorems about the interpreted source text as a whole (sessions of new / append / finalize / checkpoint / from_checkpoint)
 EXTRA_THEOREMS = {
     "C01": [(SL, ["SRC_source_is_highwayhash", "SRC_source_continue"])],
-    "C05": [(SL, ["SRC_source_streaming_invariance", "SRC_source_continue"])],
+    "C05": [(SL, ["SRC_source_streaming_invariance", "SRC_source_continue"]),
+            ("theories/Properties/FactsC05.v", ["C05_provided_methods"])],
     "C06": [(SL, ["SRC_source_checkpoint_transparent", "SRC_source_restore_total"])],
     "C08": [(SL, ["SRC_source_is_highwayhash", "SRC_source_continue", "SRC_source_restore_total", "SRC_source_checkpoint_canonical"])],
     "C11": [(SL, ["SRC_source_restore_total"])],
+    "C12": [("theories/Properties/FactsC05.v", ["C05_provided_methods"])],
+    "C13": [("theories/Properties/FactsC05.v", ["C05_provided_methods"])],
     "C14": [(SL, ["SRC_source_checkpoint_canonical"])],
 }
 
